@@ -163,15 +163,29 @@ func isReadOnly(seq []bodies.MapOp) bool {
 var linCache = map[string][2]bool{}
 
 func mapHarness(prog [][]bodies.MapOp, bound int) harness {
+	return mapHarnessFrom(prog, bound, false)
+}
+
+// mapHarnessFrom: empty = the container starts with nothing in it (so that a Remove drains it and
+// "became empty" shortcuts are exercised), otherwise with {k2: v0}.
+func mapHarnessFrom(prog [][]bodies.MapOp, bound int, empty bool) harness {
 	name := "H1:" + progName(prog)
+	init := "k2=v0"
+	if empty {
+		name = "H1:empty:" + progName(prog)
+		init = ""
+	}
 	return harness{name: name, bound: bound, build: func() ([]func(), func(*vsched.Result) (string, *violation)) {
 		c := bodies.NewContainer()
+		if empty {
+			c = bodies.NewEmptyContainer()
+		}
 		h := bodies.NewHistory(len(prog))
 		return bodies.MapBodies(c, prog, h), func(r *vsched.Result) (string, *violation) {
-			canon := h.Canon()
+			canon := init + "|" + h.Canon()
 			res, ok := linCache[canon]
 			if !ok {
-				p, b := bodies.Linearizable(h, "k2=v0", bodies.MapStep)
+				p, b := bodies.Linearizable(h, init, bodies.MapStep)
 				res = [2]bool{p, b}
 				linCache[canon] = res
 			}
@@ -555,6 +569,27 @@ func allHarnesses(tier checks.Tier) []harness {
 	}
 	for _, prog := range mapPrograms(bodies.MapAlphabet(false), 3, 1) {
 		hs = append(hs, mapHarness(prog, bound))
+	}
+	// the same from an initially empty container, for the programs that can drain and refill it
+	drains := func(prog [][]bodies.MapOp) bool {
+		rm, ins := false, false
+		for _, t := range prog {
+			for _, o := range t {
+				rm = rm || o.Kind == "Remove"
+				ins = ins || o.Kind == "Add" || o.Kind == "Replace"
+			}
+		}
+		return rm && ins
+	}
+	for _, prog := range mapPrograms(bodies.MapAlphabet(false), 2, 2) {
+		if drains(prog) {
+			hs = append(hs, mapHarnessFrom(prog, bound, true))
+		}
+	}
+	for _, prog := range mapPrograms(bodies.MapAlphabet(false), 3, 1) {
+		if drains(prog) {
+			hs = append(hs, mapHarnessFrom(prog, bound, true))
+		}
 	}
 	if thorough {
 		for _, prog := range mapPrograms(bodies.MapAlphabet(false), 2, 3) {
